@@ -127,6 +127,114 @@ impl SubCheckT for LruDirect {
 }
 
 // ---------------------------------------------------------------------------
+// 1b. the lossy cache at the sizes the builders use it (2^10 .. 2^13 slots growing by one or two doublings)
+// ---------------------------------------------------------------------------
+
+#[derive(Clone, Debug, Serialize, Deserialize)]
+pub struct LruLargeCase {
+    pub cap_exp: u8,
+    pub seed: u64,
+    /// how many keys (per mille of the initial slot count) are inserted in the filling phase
+    pub fill_permille: u16,
+}
+
+pub struct LruLarge;
+
+pub fn run_lru_large(case: &LruLargeCase, st: &mut Stats) -> CaseResult {
+    let cap = 10 + (case.cap_exp % 4) as usize;
+    let slots = 1usize << cap;
+    let gr0 = rsdd::verif_hooks::lru_grows();
+    let mut c: Lru<(u32, u32), u64> = Lru::new(cap);
+    let mut model: std::collections::HashMap<u32, u64> = std::collections::HashMap::new();
+    let key = |k: u32| (k, k ^ 0x5A5A_5A5A);
+    let mut hits = 0u64;
+    let mut lookup = |c: &Lru<(u32, u32), u64>, model: &std::collections::HashMap<u32, u64>, k: u32, h: u64, when: &str| -> CaseResult {
+        match (c.get(key(k), h), model.get(&k)) {
+            (Some(g), Some(m)) => {
+                ensure!(
+                    g == *m,
+                    "C16/lru-returned-stale-or-foreign-value",
+                    "{}: get(key {}) returned {} but the value most recently inserted under that key is {} (initial capacity 2^{}, {} growths so far)",
+                    when,
+                    k,
+                    g,
+                    m,
+                    cap,
+                    rsdd::verif_hooks::lru_grows() - gr0
+                );
+                hits += 1;
+                Ok(())
+            }
+            (Some(g), None) => fail("C16/lru-returned-value-for-a-key-never-inserted", format!("{}: get(key {}) returned {}", when, k, g)),
+            _ => Ok(()),
+        }
+    };
+    // phase 1: fill with keys whose hashes fall into distinct slots (hash = k, sometimes plus a high part), enough to
+    // pass the growth threshold once or twice
+    let fill = slots * (800 + (case.fill_permille % 1400) as usize) / 1000;
+    let hash_of = |k: u32| -> u64 { (k as u64) | ((splitmix(case.seed ^ k as u64) & 3) << 40) };
+    for k in 0..fill as u32 {
+        let v = splitmix(case.seed ^ 0xF111 ^ k as u64);
+        c.insert(key(k), v, hash_of(k));
+        model.insert(k, v);
+    }
+    let grows_after_fill = rsdd::verif_hooks::lru_grows() - gr0;
+    // phase 2: keys that were present before the growth get a new value; a colliding key (same slot at every
+    // capacity reached: the hash differs only above bit 20) then takes the slot; the first key must never come back
+    // with its old value
+    let rounds = 400usize;
+    for r in 0..rounds {
+        let k = (splitmix(case.seed ^ 0xABBA ^ r as u64) % fill as u64) as u32;
+        let v2 = splitmix(case.seed ^ 0xF222 ^ r as u64);
+        c.insert(key(k), v2, hash_of(k));
+        model.insert(k, v2);
+        lookup(&c, &model, k, hash_of(k), "right after re-inserting a key that was stored before a growth")?;
+        if r % 2 == 0 {
+            let k2 = 1_000_000 + r as u32;
+            let h2 = (hash_of(k) & 0xF_FFFF) | (1u64 << (21 + (r % 20)));
+            let v3 = splitmix(case.seed ^ 0xF333 ^ r as u64);
+            c.insert(key(k2), v3, h2);
+            model.insert(k2, v3);
+            lookup(&c, &model, k2, h2, "right after inserting a colliding key")?;
+            lookup(&c, &model, k, hash_of(k), "after a colliding key took the slot")?;
+        }
+    }
+    // phase 3: every key ever inserted
+    let keys: Vec<u32> = model.keys().copied().collect();
+    for k in keys {
+        let h = if k >= 1_000_000 {
+            continue;
+        } else {
+            hash_of(k)
+        };
+        lookup(&c, &model, k, h, "final sweep")?;
+    }
+    let gr = rsdd::verif_hooks::lru_grows() - gr0;
+    st.add("lru_large.hits", hits);
+    st.add("lru_large.grows", gr);
+    st.bump(&format!("lru_large.initial_capacity.2^{}", cap));
+    if grows_after_fill >= 1 && hits >= 100 {
+        st.mark_nontrivial();
+    }
+    Ok(())
+}
+
+impl SubCheckT for LruLarge {
+    type Case = LruLargeCase;
+    const NAME: &'static str = "lru_large";
+    const RULE: &'static str = "rsdd::util::lru::Lru with 2^10..2^13 initial slots: filled with 0.8..2.2 times as many keys as slots (distinct low hash bits), so that it grows once or twice; then 400 rounds of: re-insert a key stored before the growth with a new value, let a key whose hash differs only above bit 20 take its slot, and look the first key up again; finally every key. A get returns nothing or exactly the value most recently inserted under that key. Non-trivial: the filling phase made the cache grow and >= 100 lookups hit";
+    fn cases(tier: Tier) -> u32 {
+        tier.pick(60, 1500)
+    }
+    fn strategy(_tier: Tier) -> BoxedStrategy<LruLargeCase> {
+        (any::<u8>(), any::<u64>(), any::<u16>()).prop_map(|(cap_exp, seed, fill_permille)| LruLargeCase { cap_exp, seed, fill_permille }).boxed()
+    }
+    fn run(case: &LruLargeCase, st: &mut Stats) -> CaseResult {
+        run_lru_large(case, st)
+    }
+}
+
+// ---------------------------------------------------------------------------
 // 2. BDD builder differential: cache-everything vs lossy cache of any size
 // ---------------------------------------------------------------------------
 
@@ -557,7 +665,7 @@ impl SubCheckT for SemanticSddCache {
 pub fn property() -> Property {
     Property {
         id: "C16",
-        subs: vec![sub::<LruDirect>(), sub::<BddDiff>(), sub::<SddCaches>(), sub::<SemanticSddCache>()],
+        subs: vec![sub::<LruDirect>(), sub::<LruLarge>(), sub::<BddDiff>(), sub::<SddCaches>(), sub::<SemanticSddCache>()],
         fuzz: vec![FuzzSpec { target: "tables", runs: 150000, max_len: 500 }],
         assumptions: vec![
             "per-key hashes are functions of the key (as every caller computes them)",
